@@ -22,10 +22,11 @@ type SpecEnv struct {
 	old   *State
 	names map[string]SVal
 	depth int
+	allowUndefined bool
 }
 
 func (e *SpecEnv) with(names map[string]SVal) *SpecEnv {
-	n := &SpecEnv{u: e.u, st: e.st, old: e.old, names: map[string]SVal{}, depth: e.depth + 1}
+	n := &SpecEnv{u: e.u, st: e.st, old: e.old, names: map[string]SVal{}, depth: e.depth + 1, allowUndefined: e.allowUndefined}
 	for k, v := range e.names {
 		n.names[k] = v
 	}
@@ -300,6 +301,11 @@ func (e *SpecEnv) binary(n SBinary) (SVal, error) {
 		}
 		b, err := e.evalBool(n.Y)
 		if err != nil {
+			if n.Op == "==>" && e.allowUndefined && strings.HasPrefix(err.Error(), "unknown name") {
+				// the consequent names a source local that is not defined on this path: the clause can
+				// only hold here if the antecedent is false
+				return SVal{V: Scalar{Not(a)}}, nil
+			}
 			return SVal{}, err
 		}
 		switch n.Op {
@@ -465,6 +471,19 @@ func (e *SpecEnv) callSpec(n SCall) (SVal, error) {
 			return SVal{V: Scalar{app(SByt, "str_bytes", s.T)}}, nil
 		}
 		return SVal{}, fmt.Errorf("content of %T", v.V)
+	case "bytes_content":
+		if len(n.Args) != 3 {
+			return SVal{}, fmt.Errorf("bytes_content(array, off, len)")
+		}
+		var ts []Term
+		for _, a := range n.Args {
+			t, err := e.evalTerm(a)
+			if err != nil {
+				return SVal{}, err
+			}
+			ts = append(ts, t)
+		}
+		return SVal{V: Scalar{app(SByt, "bytes_content", ts...)}}, nil
 	case "int", "int8", "int16", "int32", "int64", "uint", "uint8", "uint16", "uint32", "uint64", "byte":
 		t, err := e.evalTerm(n.Args[0])
 		if err != nil {
